@@ -292,6 +292,10 @@ RULE = ("grid of retry policies (stop_after_attempt n=0..4(6), stop_after_delay 
         "wall-clock adapter) x failure event kind; every case runs the real engine on the virtual clock and is "
         "compared with a reference computed from really elapsed virtual time; a case is non-trivial when the step "
         "is executed more than once")
+from vmc.tables import _ROUND6 as _R6  # noqa: E402
+
+RULE += _R6["C05"]
+
 
 
 def run(tier: str, seed: int) -> CheckResult:
